@@ -1123,6 +1123,7 @@ CHECK = Check(
         "insert, duplicate slice, zero, extend) and crafted length/count/size conflicts. Oracle: the parser returns or raises "
         "ValueError (UnicodeError does not count), and executes at most 200*(len+64) aiortc lines (sys.monitoring counter). "
         "Non-trivial = the input was accepted or passed the checksum layer."
+        " Family datagrams: arbitrary datagrams (empty, 1-2 bytes of every demultiplexing class, random, unprotected RTP/RTCP, prefixes / bit flips / extensions / replays of genuine protected datagrams) through RTCDtlsTransport._recv_next of a real transport pair before, during and after the handshake; the handshake completes, the transport stays connected, nothing is handed over that nobody sent and genuine traffic keeps arriving both ways."
     ),
     families=[
         Family("parsers", run_parser, parser_case, quick=20000, thorough=600000, min_shard=500),
